@@ -316,7 +316,11 @@ func report(w *World, o *checkOpts, results []*JobResult, wall float64) int {
 				discharged++
 				bySolver[ob.Result.Solver]++
 				secsBySolver[ob.Result.Solver] += ob.Result.Secs
-			} else if ob.Kind == "safety" && ob.Cut && jr.Contract != nil && jr.Contract.Abstracted {
+			} else if ob.Kind == "safety" && ob.Cut && jr.Contract != nil && jr.Contract.Abstracted && (ob.Label == "nil" || ob.Label == "typeassert") {
+				// the shape of heap objects behind an abstracted call is unknown: a
+				// refuted nil / type test there is "not proved", not a violation.
+				// Index, slice and allocation bounds depend on integer state the
+				// contract does constrain: their refutations are reported.
 				unproved = append(unproved, ob.ID)
 			} else if f := kf.open(o.property, ob.ID); f != nil && stillKnown(ob.ID) {
 				known = append(known, ob)
